@@ -31,6 +31,9 @@ History streams: 2-4 calls on ONE Series object (in-place edit of the returned s
 values and index, other period / arguments, copy / deepcopy / pickle) and on ONE set of kernel buffers (stale
 output buffer, in-place edits), every answer judged against the current state; the oracle reads the periods off
 the returned index, so an answer produced without calling the kernel is judged too.
+Long-span stream: 2-20 observations over 69-142 years (and short series in 1890 / 2100): 6e5 .. 1.3e6 periods, so that
+i*P and hstartsec + i*P pass 2^31 and 2^32; exact oracle on sampled period indices (ends, both sides of each crossing,
+random) + a float pre-screen of all periods, model compared on slices around the crossings (oracle-only elsewhere).
 A case is non-trivial when at least one period is returned non-missing (distinct input).
 """
 import bisect
